@@ -10,11 +10,12 @@ Open Scope Z_scope.
 
 Definition warm_tk (t : tk) (r : Z) : tk :=
   {| start := step2time t r; stop := stop t; dt := dt t; ref := ref t; rev := rev t |}.
-(** the set-up of the restarted run: same files, same table, same constants, clock from the restart time *)
+(** the set-up of the restarted run: same files, same table, same constants, same advection scheme, clock from
+    the restart time *)
 Definition warm_setup (s : setup) (r : Z) : setup :=
   {| s_tk := warm_tk (s_tk s) r; s_files := s_files s; s_tab := s_tab s; s_cont := s_cont s; s_period := s_period s;
      s_dtdx := s_dtdx s; s_lo := s_lo s; s_hi := s_hi s; s_life := s_life s; s_cfac := s_cfac s;
-     s_land := s_land s |}.
+     s_land := s_land s; s_adv := s_adv s |}.
 
 (** the releaser of a warm start *)
 Definition mw_rows (s : setup) (n : Z) : list row :=
